@@ -43,7 +43,9 @@ Proof.
   - destruct (cfee <? 0); [inversion H; auto|].
     destruct (fold_left vm_transfer trs (s, a, b)) as [[s1 a1] b1] eqn:F.
     destruct (vm_fold_frame _ _ _ _ _ _ _ F).
-    match type of H with (if ?c then _ else _) = _ => destruct c end; inversion H; subst; auto.
+    match type of H with (if ?c then _ else _) = _ => destruct c end; [|inversion H; subst; auto].
+    match type of H with (if ?c then _ else _) = _ => destruct c end; [inversion H; subst; auto|].
+    destruct trs; inversion H; subst; auto.
   - destruct (cfee <? 0); inversion H; auto.
   - inversion H; auto.
 Qed.
